@@ -60,9 +60,7 @@ Lemma permZ_spec a b : permZ a b = true -> NoDup a /\ (forall x, In x a <-> In x
 Proof.
   unfold permZ. intros H. repeat (apply andb_true_iff in H as [H ?]).
   split.
-  - clear - H. induction a as [|x a IH]; simpl in *; [constructor|].
-    apply andb_true_iff in H as [H1 H2]. constructor; [|auto].
-    apply negb_true_iff in H1. now apply memZ_false.
+  - now apply nodupZ_NoDup.
   - intros x. split; intros Hx; [eapply subsetZ_incl; eauto|eapply subsetZ_incl; eauto].
 Qed.
 
@@ -239,7 +237,6 @@ Section GenDerive.
     (forall t m, In m (nn_arg_nests a) ->
        pvX Phi (enf t) (nn_param m) = XR (muf m) /\ muf m <> 0 /\ nl_exact (nn_param m) /\
        exists j, In j (nn_alts m) /\ aval j <> 0) ->
-    (forall m, In m (nn_arg_nests a) -> NoDup (nn_alts m)) ->
     In i (keys U) -> aval i <> 0 ->
     get_mev_generating_for_nested (pe_dict U) av a order = Ok G ->
     get_mev_for_nested (pe_dict U) av a = Ok D ->
@@ -247,7 +244,7 @@ Section GenDerive.
     pvX Phi (enf (uval i)) g = XR gi ->
     is_derive (fun t => xR (evalX Phi G (enf t))) (uval i) (exp (uval i) * exp gi).
   Proof.
-    intros Hav HU Hn Hnd Hi Ha EG ED Eg Hgi.
+    intros Hav HU Hn Hi Ha EG ED Eg Hgi.
     (* the value of G along the family of environments *)
     assert (HG : forall t, exists n, nl_make (pe_dict U) a = Ok n /\
                    evalX Phi G (enf t) = XR (Gfun aval (uvt uval i t) muf (nl_list n) order)).
@@ -272,8 +269,8 @@ Section GenDerive.
     pose proof (nl_log_gi_value Phi (enf x) U av aval (uvt uval i x) (Hav x) HUx n _ i g Egd Hok Hi Ha Hlg) as Hgv.
     rewrite Hgi in Hgv. injection Hgv as ->.
     destruct (nl_guard_inv _ _ _ _ Egd) as (Hpart & _ & _).
-    unfold check_partition in Hpart. apply andb_true_iff in Hpart as [_ Hint].
-    unfold check_intersection in Hint. apply andb_true_iff in Hint as [Hial Hpd].
+    destruct (check_partition_inv _ Hpart) as (Hnd0 & Hial & Hpd).
+    assert (Hnd : forall m, In m (nn_arg_nests a) -> NoDup (nn_alts m)) by (rewrite <- Hl; exact Hnd0).
     eapply is_derive_ext_loc; [apply filter_forall; intros; reflexivity|].
     match goal with HD : is_derive _ _ ?d |- is_derive _ _ ?d' => replace d' with d; [exact HD|] end.
     unfold gnl. unfold find_nest in *.
